@@ -113,6 +113,16 @@ def check_values(case):
             want_f = sum(p * sh for p, sh in zip(hist[q][1], hist[q][2])) / sum(hist[q][2])      # with the shares outstanding when the clock advanced to q
             if not math.isclose(rec, want_f, rel_tol=1e-12, abs_tol=1e-12):
                 return f"recorded fundamental value of the index at time {q} = {rec}, weighted average of the components' fundamentals = {want_f}"
+    # advancing the index market alone, before its components: the components have no value for the new time yet, so this must be refused (never answered with older values)
+    if case["seed"] % 2 == 1:
+        before = idx.get_time()
+        try:
+            sim._update_time_on_market(idx)
+        except AssertionError:
+            pass
+        else:
+            return (f"the index market was advanced to time {idx.get_time()} while its components are at time {[c.get_time() for c in comps]}: it recorded the fundamental value "
+                    f"{idx.get_fundamental_price()} although the components have no value for that time (was at {before})")
     return None
 
 
